@@ -15,7 +15,7 @@ import writemodel as wm
 PROP = "C16"
 MODEL_TARGETS = ["Corr/WriteShow.vo"]
 THEOREMS = ["C16_data_frame", "C16_curves_frame", "C16_params_frame", "C16_well_frame", "C16_version_frame", "C16_state_depends_on_wrap_only", "C16_vers_untouched", "C16_standardize_idem", "C16_refresh_idem", "C16_write_text_function_of_state", "C16_idempotent_partial", "C16_idempotent_nowrap", "C16_need_created", "C16_need_changed", "C16_need_stop_differs_int", "C16_need_stop_differs_float", "C16_units_aligned", "C16_truth", "C16_truth_texts", "C16_header_frame", "C16_version_in_memory",
-            "C16_standardize_current"]
+            "C16_standardize_current", "C16_truth_step_nan", "C16_no_curve_raises"]
 ASSUMPTIONS = [
     "'to format precision' = the text \"%.5f\" % x that CPython prints (oracle fmtv / fmt_diff)",
     "STRT/STOP/STEP keyword arguments are left to lasio (None), as the property says",
@@ -38,10 +38,11 @@ WOPTS = [dict(), dict(version=1.2), dict(version=2), dict(wrap=True), dict(wrap=
 ROPTS = [dict(), dict(), dict(), dict(), dict(mnemonic_case="preserve"), dict(mnemonic_case="lower"), dict(engine="normal"),
          dict(ignore_header_errors=True), dict(null_policy="none"), dict(mnemonic_case="preserve", engine="normal", ignore_header_errors=True)]
 
-# classes that wait for the writer model (Model/Writer.v, Corr/WriteShow.v): switched on when the model agent says so
-NAN_INDEX = False            # NaN inside the index ([1.0, nan, 3.0], NaN first / last), by edit, in the text, or scratch-built
-ZERO_CURVES = False          # every curve deleted after a read (lasio raises IndexError); needs the pipeline op ED
-SCRATCH_BUILT_MODEL = False  # lasio.LASFile() + append_curve goes through the model as well (needs the pipeline op EB); the
+# classes that needed the writer model of A5 (Model/Writer.v STEP "nan", WErr on no curves; Corr/WriteShow.v ops ED / EB): on since the
+# model agent's go
+NAN_INDEX = True             # NaN inside the index ([1.0, nan, 3.0], NaN first / last), by edit, in the text, or scratch-built
+ZERO_CURVES = True           # every curve deleted after a read (lasio raises IndexError); needs the pipeline op ED
+SCRATCH_BUILT_MODEL = True   # lasio.LASFile() + append_curve goes through the model as well (needs the pipeline op EB); the
                              # implementation-side oracle runs on these objects in any case
 
 
@@ -190,6 +191,9 @@ def gen_case(rng):
     elif mode == "delete_all" and ZERO_CURVES:
         for _ in range(max(nc, len(s.curves))):
             ops.append(("ED", 0))
+        if rng.random() < 0.3:
+            ops.append(("EN",))           # without index_initial the empty LASFile is writable (STRT/STOP/STEP become 0)
+            feats.add("delete_all_then_scratch")
     elif mode == "edit_header":
         ops.append(rng.choice([("EV", "W", "STOP", "77"), ("EV", "W", "STOP", "text"), ("EV", "W", "STRT", "0.5"), ("EV", "W", "STEP", "9"),
                                ("EV", "W", "STEP", "text"), ("EV", "W", "NULL", "-1"), ("EV", "W", "COMP", "x y"),
@@ -385,7 +389,7 @@ def run(ctx):
             # a write that raises is outside the statement; it is expected for a missing STRT/STOP/STEP item, for a NaN sample when
             # there is no NULL item to print it with, and for a LASFile without curves - anything else would shrink the sample silently
             hist["write_raises"] = hist.get("write_raises", 0) + 1
-            if not (any(f.startswith("missing_ST") for f in feats) or mode == "delete_all"
+            if not (any(f.startswith("missing_ST") for f in feats) or (mode == "delete_all" and "delete_all_then_scratch" not in feats)
                     or ("missing_NULL" in feats and ("nan_index" in feats or "NULL" in detail["rejected"]))):
                 unexpected.append("%s %r: %s" % (mode, sorted(feats), detail["rejected"]))
         if mode == "scratch_built" and not SCRATCH_BUILT_MODEL:
